@@ -188,6 +188,39 @@ static void *c05_root(void *arg) {
 	world_check_messages(1);
 	if (W.nmsgs > 2) sim_mark_interesting();
 	W.teardown = 1;
+	if (sim_violated() || !item_get(&p->cfg, "lateprobe", 1)) return NULL;
+	/* after the traffic: a send to a thread that has visibly left its loop (its stop hook is running or done) must
+	 * be refused (or, with FORCE, run directly) - it can never be delivered */
+	{
+		pool_w *pw = &W.pool[0];
+		int probed[MAX_THR] = { 0 }, left;
+		W.slow_stop_hook_ns = 200000;
+		tp_shutdown(pw->tp);
+		for (int round = 0; round < 400 && !sim_violated(); round++) {
+			left = 0;
+			for (int i = 0; i < pw->n; i++) {
+				msg_rec *m;
+				int rc;
+				uint32_t fl = (i & 1) ? TP_MSG_F_FORCE : 0;
+				if (pw->never_started[i] || probed[i]) continue;
+				if (pw->stop_cnt[i] == 0) { left++; continue; }
+				probed[i] = 1;
+				m = world_new_msg(-1, MK_PLAIN, 0, i, fl);
+				m->sent = 1; m->send_fiber = sim_self(); m->in_send = 1; m->dst_running = 0; m->qfail_before = sim_qwrite_fails();
+				rc = tpt_msg_send(pw->thr[i], NULL, fl, world_msg_cb, m);
+				m->in_send = 0; m->rc = rc;
+				sim_probe("c05.send_to_stopping_thread");
+				if (fl & TP_MSG_F_FORCE) {
+					if (0 != rc || m->exec_count != 1) { sim_violation("msg-accepted-after-stop", "FORCE send to thread %d whose stop hook had started returned %d and ran the callback %d time(s) (expected: direct call, 0)", i, rc, m->exec_count); break; }
+				} else if (0 == rc) {
+					sim_violation("msg-accepted-after-stop", "send to thread %d, which had already left its event loop (stop hook running), returned 0: the message can never be delivered", i);
+					break;
+				}
+			}
+			if (!left) break;
+			sim_sleep_ns(20000, "c05.late_probe");
+		}
+	}
 	return NULL;
 }
 
